@@ -591,8 +591,28 @@ class ModelMixin:
     def m_list_extend(self, recv, h, args, kwargs, st, line):
         seq = self.concrete_iterable(args[0], st)
         if seq is None:
+            if isinstance(args[0], Ref) and st.obj(args[0]).kind == 'slist':
+                # extending by a list of symbolic length: keep the segments (as for `+=`)
+                h.kind = 'seglist'
+                h.meta = {'segments': [('items', list(h.items)), ('slist', args[0])]}
+                h.items = None
+                return [ok(None, st)]
             raise EngineError('extend with symbolic iterable')
         h.items.extend(seq)
+        return [ok(None, st)]
+
+    def m_seglist_extend(self, recv, h, args, kwargs, st, line):
+        seq = self.concrete_iterable(args[0], st)
+        if seq is not None:
+            h.meta['segments'] = list(h.meta['segments']) + [('items', list(seq))]
+        elif isinstance(args[0], Ref) and st.obj(args[0]).kind == 'slist':
+            h.meta['segments'] = list(h.meta['segments']) + [('slist', args[0])]
+        else:
+            raise EngineError('extend of a concatenated list with a symbolic iterable')
+        return [ok(None, st)]
+
+    def m_seglist_append(self, recv, h, args, kwargs, st, line):
+        h.meta['segments'] = list(h.meta['segments']) + [('items', [args[0]])]
         return [ok(None, st)]
 
     def m_list_pop(self, recv, h, args, kwargs, st, line):
